@@ -123,6 +123,11 @@ def hexn(n, start=0xa0):
     return bytes((start + i) & 0xFF for i in range(n)).hex()
 
 
+def run_file_api(params, known):
+    from .c18 import run_file_api as run
+    return run(params, known)
+
+
 def scenarios(tier):
     out = []
     s6 = ('send', hexn(6))
@@ -155,6 +160,8 @@ def scenarios(tier):
     # the same with traffic both ways: acknowledgements are generated while a segment is half written
     out.append(_scen('chunk9-A1|B1', {'A': [s1], 'B': [s1b]}, dev_bound=0, chunk=9, weight=60))
     out.append(dict(name='many-transfers', kind='enum', runner='run_many', params=dict(name='many-transfers'), weight=30))
+    # delivery into a file (recv_bundle_pop_file) and sending from one: the octets are the bundle's, nothing else
+    out.append(dict(name='file-api', kind='enum', runner='run_file_api', params=dict(name='file-api', prop=PROP), weight=5))
     if thorough:
         out.append(shape(3, 1, 1))
         out.append(_scen('W1-A1+A1-d1', {'A': [s1, s1b], 'B': []}, dev_bound=1, weight=40))
